@@ -173,7 +173,7 @@ class Corpus:
             st = parse_stream(x)
             mid = st["blocks"][min(len(st["blocks"]) - 1, max(1, len(st["blocks"]) // 2))]
             first, last = st["blocks"][0], st["blocks"][-1]
-            meta = dict(sized=m["sized"], bcj=m["bcj"], nblocks=m["nblocks"], valid=False, concatenated=False)
+            meta = dict(sized=m["sized"], bcj=m["bcj"], nblocks=m["nblocks"], usize=m["usize"], valid=False, concatenated=False)
             # flip a byte inside the compressed data of the middle block
             d = bytearray(x)
             pos = mid["off"] + mid["hsize"] + rng.randrange(1, max(2, mid["unpadded"] - mid["hsize"] - st["check_size"]))
@@ -262,7 +262,7 @@ class Corpus:
         n, mn = b("t1-nosize")
         s, ms = b("t2-none-small")
         xb, mx = b("t4-x86")
-        common = dict(sized=True, bcj=False, nblocks=ma["nblocks"] + mn["nblocks"])
+        common = dict(sized=True, bcj=False, nblocks=ma["nblocks"] + mn["nblocks"], usize=ma["usize"] + mn["usize"])
         cat("cat-sized+nosize", [bytes(a), bytes(n)], kind="concat", valid=True, **common)
         cat("cat-nosize+pad8+sized", [bytes(n), bytes(8), bytes(a)], kind="concat", valid=True, **common)
         cat("cat-sized+pad4+small+pad4", [bytes(a), bytes(4), bytes(s), bytes(4)], kind="concat", valid=True, **common)
@@ -272,7 +272,7 @@ class Corpus:
         st = parse_stream(bytes(s))
         cat("cat-sized+corruptsmall+sized", [bytes(a), bytes(s[:st["blocks"][0]["off"] + st["blocks"][0]["hsize"] + 2]) + bytes([s[st["blocks"][0]["off"] + st["blocks"][0]["hsize"] + 2] ^ 0x40]) + bytes(s[st["blocks"][0]["off"] + st["blocks"][0]["hsize"] + 3:]), bytes(a)],
             kind="concat-corrupt", valid=False, **common)
-        cat("cat-x86+sized", [bytes(xb), bytes(a)], kind="concat", valid=True, sized=True, bcj=True, nblocks=mx["nblocks"] + ma["nblocks"])
+        cat("cat-x86+sized", [bytes(xb), bytes(a)], kind="concat", valid=True, sized=True, bcj=True, nblocks=mx["nblocks"] + ma["nblocks"], usize=mx["usize"] + ma["usize"])
 
         # ---- the repository's own test files
         tdir = os.path.join(repo, "tests", "files")
